@@ -401,6 +401,79 @@ func builderTable() *core.Family {
 	}
 }
 
+// padding slide: "arbitrary whitespace" includes a lot of it. The tokenizer reads through a
+// 1024-byte buffer; every token of the policy is slid across the first two buffer edges
+// by leading whitespace of every length in the windows around them. Whatever the padding,
+// a valid text parses to the same tree and a text outside the grammar is rejected.
+func paddingSlide() *core.Family {
+	valid := []string{
+		`permit(principal, action, resource) when { principal.admin && context.login.unlike.this.notin.isolated.hash.likely.iffy.thenx.elsewhere.truee.falsey == 1 };`,
+		`@inner("x") forbid(principal is Iso::Like in In::"has", action in [Is::"if", Then::"else"], resource) unless { context has admin && context has "in" && {likes: 1, inn: 2, "if": 3}.likes < 2 };`,
+		`permit(principal, action, resource) when { if context.a then context.b else context.c } unless { context.a like "*in*" || 9223372036854775807 >= -9223372036854775808 };`,
+		`permit(principal, action, resource) when { context.a.containsAll(context.b) && ip("10.0.0.1").isInRange(ip("10.0.0.0/8")) && context.d.lessThanOrEqual(decimal("1.0")) };`,
+		`permit(principal, action, resource) when { "string with \"quotes\" and \u{1F600} é" == context["key with spaces"] && principal.hasTag("a") };`,
+	}
+	invalid := []string{
+		`permit(principal, action, resource) when { context.else == 1 };`,
+		`permit(principal, action, resource) when { context.in };`,
+		`permit(principal, action, resource) when { principal has like };`,
+		`permit(principal, action, resource) when { {if: 1} == context };`,
+		`permit(principal, action, resource) when { true::"x" == principal };`,
+		`permit(principal is then, action, resource);`,
+		`permit(principal, action, resource) when { 1 < 2 < 3 };`,
+	}
+	var pads []int
+	for _, edge := range []int{1024, 2048} {
+		for p := edge - 230; p <= edge+4; p++ {
+			pads = append(pads, p)
+		}
+	}
+	fills := []string{" ", "\n", " // c\n"}
+	texts := append(append([]string{}, valid...), invalid...)
+	return &core.Family{
+		Name: "padding-slide",
+		Desc: fmt.Sprintf("%d valid policies (identifiers with reserved words as prefix / suffix, reserved words as entity-type path segments, annotations, attribute names and quoted keys; long literals) and %d texts outside the grammar, each behind leading whitespace of every length in the %d-byte windows before the 1024- and 2048-byte buffer edges (3 kinds of filler): same tree resp. still rejected", len(valid), len(invalid), 235),
+		N:    int64(len(texts) * len(fills)),
+		Run: func(t *core.T, i int64) {
+			text := texts[int(i)/len(fills)]
+			fill := fills[int(i)%len(fills)]
+			isValid := int(i)/len(fills) < len(valid)
+			base, berr := Parse(text)
+			if isValid && berr != nil {
+				t.Fail("harness-padding-text", text, "parses", berr.Error())
+				return
+			}
+			if !isValid && berr == nil {
+				t.Fail("accepted-outside-grammar:"+text, text, "rejected with an error", "accepted")
+				return
+			}
+			for _, n := range pads {
+				// exactly n bytes: whole fillers, then spaces
+				pad := strings.Repeat(fill, n/len(fill))
+				pad += strings.Repeat(" ", n-len(pad))
+				got, err := Parse(pad + text)
+				if isValid {
+					if err != nil {
+						t.Fail("rejected:padding", fmt.Sprintf("%d bytes of %q + %s", n, fill, text), "parses as without the padding", err.Error())
+						return
+					}
+					got.Position = base.Position
+					if !reflect.DeepEqual(got, base) {
+						t.Fail("wrong-tree:padding", fmt.Sprintf("%d bytes of %q + %s", n, fill, text), fmt.Sprintf("%+v", *base), fmt.Sprintf("%+v", *got))
+						return
+					}
+				} else if err == nil {
+					t.Fail("accepted-outside-grammar:padding", fmt.Sprintf("%d bytes of %q + %s", n, fill, text), "rejected with an error", fmt.Sprintf("accepted: %+v", got.Conditions))
+					return
+				}
+			}
+			t.Nontrivial()
+			t.AddStates(int64(len(pads)))
+			t.Sample(text)
+		},
+	}
+}
+
 // depth 3 over the precedence-relevant operators (one representative per level).
 func depth3() *core.Family {
 	all := Depth3Exprs()
@@ -674,9 +747,9 @@ func Check() *core.Check {
 		Families: func(tier string) []*core.Family {
 			lv := leaves()
 			if tier == "thorough" {
-				return []*core.Family{literals(), rejections(), builderTable(), heads(), depth1(lv), depth2(lv[:5], allLayouts), depth3()}
+				return []*core.Family{literals(), rejections(), builderTable(), paddingSlide(), heads(), depth1(lv), depth2(lv[:5], allLayouts), depth3()}
 			}
-			return []*core.Family{literals(), rejections(), builderTable(), heads(), depth1(lv[:5]), depth2(lv[:4], []Layout{LayoutTight, LayoutComments}), depth3()}
+			return []*core.Family{literals(), rejections(), builderTable(), paddingSlide(), heads(), depth1(lv[:5]), depth2(lv[:4], []Layout{LayoutTight, LayoutComments}), depth3()}
 		},
 	}
 }
